@@ -52,6 +52,7 @@ type drv struct {
 	mu       sync.Mutex
 	rec      *h.Rec
 	over     bool // after End: nothing is recorded any more
+	closeErr bool // the underlying CloseWithStatus returns an error
 	dials    []string
 	ndial    int
 	nextDial int
@@ -238,6 +239,10 @@ func (f *fake) CloseWithStatus(transport.CloseStatus) error {
 		close(f.closed)
 		f.d.log("UClose", "inc", f.inc)
 	})
+	if f.d.closeErr {
+		// the underlying connection's own close fails (peer silently gone, closing handshake fails): the connection is closed anyway
+		return fmt.Errorf("scripted failure of the underlying close")
+	}
 	return nil
 }
 func (f *fake) AsUnreliable() (transport.UnreliableTransport, bool) { return nil, false }
@@ -347,6 +352,9 @@ func run(sc *h.Scenario) *h.Rec {
 	d := &drv{rec: rec, dials: strsOf(sc.P["dials"]), wbusy: map[int]*call{}, lastEv: time.Now(), after: "fail"}
 	if a, _ := sc.P["after"].(string); a == "ok" {
 		d.after = "ok"
+	}
+	if ce, _ := sc.P["closeErr"].(bool); ce {
+		d.closeErr = true
 	}
 	rec.Log("Reset", "kind", sc.Kind, "p", h.Ev{"budget": budget, "ndials": len(d.dials), "wdMs": int(wd / time.Millisecond)})
 	pre := time.Duration(preMs) * time.Millisecond
